@@ -191,5 +191,6 @@ partial def ofPExp : PExp → E
   | .bin o l r => .bin o (ofPExp l) (ofPExp r)
   | .un .neg e => .un .neg (ofPExp e)
   | .un .not e => .not (ofPExp e)
+  | e => .var (toString (repr e))     -- constructs outside the expression sub-language: opaque
 
 end Rooc.Syntax.Ref
